@@ -2,7 +2,8 @@
    the specification directly): the normaliser's field merging pass
    (astnormalization/inline_fragment_selection_merging.go, mergeInlineFragmentSelections) followed
    by the leaf de-duplication pass (field_deduplication.go), preceded by removeSelfAliasing, on
-   fragment-free, directive-free documents.  [cmp_args = false] is the code before the repair
+   fragment-free documents (directives without execution meaning are compared as
+   ast.DirectiveSetsAreEqual does: as multisets).  [cmp_args = false] is the code before the repair
    (fieldsCanMerge compares name, alias and directives only); [cmp_args = true] the repaired one
    (work/c04_fix_merge.patch).  The defects repaired afterwards (work/c04_fix_*.patch) are kept as
    flags of a [quirks] record: [old_quirks] is the code as it was at a156714, [go_quirks] the
@@ -47,16 +48,24 @@ Record quirks := {
   q_composite_uncompared : bool;   (* ... never compared name/arguments of fields with a selection set *)
   q_leaf_vs_composite : bool;      (* ... never compared a leaf field with a field with a selection set *)
   q_kind_mismatch_dropped : bool;  (* ... did not record a field whose type kind differed from a requirement's *)
-  q_shape_unrelated : bool         (* ... did not compare the list / non-null wrappers of unrelated composite types *)
+  q_shape_unrelated : bool;        (* ... did not compare the list / non-null wrappers of unrelated composite types *)
+  q_dirs_as_set : bool             (* DirectiveSetsAreEqual compares directive lists as SETS (equal length, every left
+                                      directive occurs somewhere on the right).  Never the code of /repo: the variant
+                                      exists for the refutation [merge_dirs_as_set_refuted] (seeded regression C04-m7) *)
 }.
 Definition old_quirks : quirks :=
   {| q_args_positional := true; q_typename_skipped := true; q_enum_nonscalar := true;
      q_composite_uncompared := true; q_leaf_vs_composite := true; q_kind_mismatch_dropped := true;
-     q_shape_unrelated := true |}.
+     q_shape_unrelated := true; q_dirs_as_set := false |}.
 Definition go_quirks : quirks :=
   {| q_args_positional := false; q_typename_skipped := false; q_enum_nonscalar := false;
      q_composite_uncompared := false; q_leaf_vs_composite := false; q_kind_mismatch_dropped := false;
-     q_shape_unrelated := false |}.
+     q_shape_unrelated := false; q_dirs_as_set := false |}.
+(* the repaired code with directive lists compared as sets *)
+Definition set_quirks : quirks :=
+  {| q_args_positional := false; q_typename_skipped := false; q_enum_nonscalar := false;
+     q_composite_uncompared := false; q_leaf_vs_composite := false; q_kind_mismatch_dropped := false;
+     q_shape_unrelated := false; q_dirs_as_set := true |}.
 
 Definition go_arg_eqb (x y : argument) : bool :=
   bytes_eqb (fst x) (fst y) && go_value_eqb (snd x) (snd y).
@@ -82,18 +91,25 @@ Definition go_args_eqb (a b : list argument) : bool :=
   if q_args_positional Q then go_args_eqb_positional a b else go_args_eqb_byname a b.
 Definition go_dir_eqb (a b : directive) : bool :=
   bytes_eqb (d_name a) (d_name b) && go_args_eqb (d_args a) (d_args b).
-(* DirectiveSetsAreEqual: equal as multisets (greedy matching) *)
+(* DirectiveSetsAreEqual: equal as multisets -- every left directive is matched with a DISTINCT
+   right one (the matched[j] bookkeeping of the Go loop: the first right directive that is equal
+   and not yet taken) and the lengths agree *)
 Fixpoint remove_first (d : directive) (l : list directive) : option (list directive) :=
   match l with
   | [] => None
   | x :: r => if go_dir_eqb d x then Some r
               else match remove_first d r with Some r' => Some (x :: r') | None => None end
   end.
-Fixpoint go_dirs_eqb (a b : list directive) : bool :=
+Fixpoint go_dirs_eqb_multiset (a b : list directive) : bool :=
   match a with
   | [] => match b with [] => true | _ => false end
-  | d :: a' => match remove_first d b with Some b' => go_dirs_eqb a' b' | None => false end
+  | d :: a' => match remove_first d b with Some b' => go_dirs_eqb_multiset a' b' | None => false end
   end.
+(* the set-semantics variant: equal length and every left directive equal to SOME right one *)
+Definition go_dirs_eqb_set (a b : list directive) : bool :=
+  Nat.eqb (length a) (length b) && forallb (fun d => existsb (go_dir_eqb d) b) a.
+Definition go_dirs_eqb (a b : list directive) : bool :=
+  if q_dirs_as_set Q then go_dirs_eqb_set a b else go_dirs_eqb_multiset a b.
 Definition alias_bytes (a : option name) : name := match a with Some x => x | None => [] end.
 
 Section Merge.
@@ -404,6 +420,8 @@ End Quirks.
 
 (* the normaliser's merge step: the repaired code and the code before a156714 *)
 Definition merge_fields : document -> document := norm_doc go_quirks true.
+(* the merge step if directive lists were compared as sets (not the code of /repo) *)
+Definition merge_fields_dirs_as_set : document -> document := norm_doc set_quirks true.
 Definition merge_fields_ignoring_args : document -> document := norm_doc old_quirks false.
 (* the validator's FieldSelectionMerging rule: the repaired code (tied to Go by corr:C04/overlap)
    and the rule as it was at a156714 *)
